@@ -60,7 +60,7 @@ func (r *Report) Check(ok bool, rule, construct, pos, detail string, facts ...st
 	if ok {
 		r.Ok(rule, construct, facts...)
 	} else {
-		r.Fail(rule, construct, pos, detail, facts...)
+		r.Fail(rule, construct, pos, detail)
 	}
 	return ok
 }
@@ -277,6 +277,10 @@ func (r *Report) finish(o finishOpts) int {
 	for k, v := range o.extra {
 		cov[k] = v
 	}
+	if o.assume == nil {
+		o.assume = []string{}
+	}
+	o.assume = append(o.assume, "trusted base: see coverage.trusted_base")
 	ev := map[string]interface{}{
 		"property_id": r.Prop,
 		"tier":        o.tier,
